@@ -11,6 +11,9 @@ func famElementwise(g *Gen) {
 		g.tag("large-tensor")
 	}
 	a := g.leafDistinct(ds, false, -3, 3)
+	if g.chance(0.3) {
+		g.interfere(a)
+	}
 	// unary
 	for i := 0; i < 2; i++ {
 		switch g.intn(3) {
@@ -257,6 +260,9 @@ func famIndexing(g *Gen) {
 		g.tag("large-tensor")
 	}
 	a := g.leafDistinct(ds, false, -9, 9)
+	if g.chance(0.2) {
+		g.interfere(a)
+	}
 	g.do(Cmd{Op: OpNElems, T: a})
 	g.do(Cmd{Op: OpShape, T: a})
 	// At
